@@ -29,6 +29,9 @@ class Family:
     def sample(self, c):
         return {k: v for k, v in c.items() if k != "id"}
 
+    def impl_obs(self, raw):      # the part of the harness output that is compared with the model's observation
+        return raw
+
     def shrink_candidates(self, c):
         return []
 
@@ -48,6 +51,8 @@ def xrun(fam, cases):
     recs = {}
     for c in cases:
         i = impl.get(c["id"])
+        if i is not None:
+            i = fam.impl_obs(i)
         m = model.get(c["id"])
         d = core.parse_driver(m) if m else {"obs": None}
         recs[c["id"]] = {"impl": i, "model": d.get("obs"), "spec": d.get("spec"), "ispec": d.get("ispec"),
